@@ -89,7 +89,7 @@ impl Engine for PoolEngine {
     fn info(&self) -> EngineInfo {
         EngineInfo {
             level: "exploration",
-            rule: "Seeded scenarios: 2-3 simulated caller threads x 3-6 operations on one BufferPool with min_size in {0, 1, 16, 128}: alloc::<E>(cap) for E in {u8, u16, i32, f32, u64, [u8;3], [u8;16], [u32;4], [u16;2], [u8;4]} (equal and different sizes and alignments) with cap around the threshold; the whole capacity is filled with a per-(thread, op) pattern, held across 0-2 scheduling points, verified, then released by add / drop / PoolRef drop / PoolRef::take / tensor extract_buffer. One controlled execution per case under a seeded random-walk or PCT (depth 1-3) scheduler; every scheduling point is a Mutex lock/unlock or atomic access inside the real buffer_pool.rs, plus the holds. A reference model (pointer -> bytes, alignment, owner/pooled) is checked at every alloc and release and at quiescence. Non-trivial = at least 2 context switches and at least one pool hit or return; distinct = hash of the recorded task-id sequence together with the scenario.".into(),
+            rule: "Seeded scenarios: 2-3 simulated caller threads x 3-6 operations on one BufferPool with min_size in {0, 1, 16, 128}: alloc::<E>(cap) for E in {u8, u16, i32, f32, u64, [u8;3], [u8;16], [u32;4], [u16;2], [u8;4], ()} (equal and different sizes and alignments, one zero-sized type) with cap around the threshold; the whole capacity is filled with a per-(thread, op) pattern, held across 0-2 scheduling points, verified, then released by add / drop / PoolRef drop / PoolRef::take / tensor extract_buffer. One controlled execution per case under a seeded random-walk or PCT (depth 1-3) scheduler; every scheduling point is a Mutex lock/unlock or atomic access inside the real buffer_pool.rs, plus the holds. A reference model (pointer -> bytes, alignment, owner/pooled) is checked at every alloc and release and at quiescence. Non-trivial = at least 2 context switches and at least one pool hit or return; distinct = hash of the recorded task-id sequence together with the scenario.".into(),
             real_components: vec!["/repo/src/buffer_pool.rs compiled into the harness unchanged except for the cfg'd import swap: BufferPool::{alloc, add, len}, Buffer::{from_vec, into_vec, can_fit, layout_match, release}, PoolRef, AutoReturn, ExtractBuffer for Vec and Tensor".into()],
             stub_components: vec!["std::sync::Mutex / AtomicUsize -> shuttle::sync::{Mutex, atomic::AtomicUsize}; caller threads -> shuttle coroutines (the Miri back end, run by the same check, uses std primitives and real threads under Miri's seeded scheduler)".into()],
             assumptions: vec![
